@@ -486,3 +486,41 @@ theorem step_inv {P : Params κ} (hG : Good P) (hfx : P.fx.gateChecks = true) {c
         simp only [cleanOk, hx', Bool.and_false, Bool.false_and]
 
 end Grog.Build
+
+namespace Grog.Build
+open Grog Grog.Exec
+variable {κ : Type} [DecidableEq κ]
+
+/-- the specification processes the same order -/
+def cleanRun (run : Cmd → View → RunRes) (defs : Defs) (order : List Lbl) (c : Spec.CState) : Spec.CState :=
+  order.foldl (Spec.cleanStep run defs) c
+
+theorem run_inv_aux {P : Params κ} (hG : Good P) (hfx : P.fx.gateChecks = true) {cfg : Cfg} (hm : cfg.minimal = false)
+    {defs : Defs} {order : List Lbl} (hwf : WF defs order) (fuel : Nat) :
+    ∀ (rest pre : List Lbl) (s : BState κ) (c : Spec.CState), order = pre ++ rest → Inv P defs order s c pre →
+      Inv P defs order (run P cfg defs fuel rest s) (cleanRun P.run defs rest c) (pre ++ rest) := by
+  intro rest
+  induction rest with
+  | nil => intro pre s c _ hI; simpa [run, cleanRun] using hI
+  | cons l rest ih =>
+    intro pre s c ho hI
+    obtain ⟨t, ht⟩ := hwf.defined l (by rw [ho]; simp)
+    have hstep := step_inv hG hfx hm hwf fuel pre l rest ho t ht hI
+    have := ih (pre ++ [l]) (buildTarget P cfg defs fuel t s) (Spec.cleanTarget P.run defs t c) (by rw [ho]; simp) hstep
+    simp only [run, cleanRun, List.foldl_cons, stepTarget, Spec.cleanStep, ht]
+    simpa [run, cleanRun] using this
+
+/-- the invariant holds after the whole build -/
+theorem run_inv {P : Params κ} (hG : Good P) (hfx : P.fx.gateChecks = true) {cfg : Cfg} (hm : cfg.minimal = false)
+    {defs : Defs} {order : List Lbl} (hwf : WF defs order) (fuel : Nat) (s : BState κ) (c : Spec.CState)
+    (h0 : Inv P defs order s c []) :
+    Inv P defs order (run P cfg defs fuel order s) (cleanRun P.run defs order c) order := by
+  simpa using run_inv_aux hG hfx hm hwf fuel order [] s c (by simp) h0
+
+/-- the start of a build satisfies the invariant against any specification workspace that agrees off the outputs -/
+theorem inv_start {P : Params κ} {defs : Defs} {order : List Lbl} (w : World κ) (hs : CacheSound P w.cache) (fs0 : FS)
+    (hag : ∀ p, (∀ l ∈ order, ∀ t, defs l = some t → p ∉ outPaths t) → w.fs p = fs0 p) :
+    Inv P defs order (start w) { fs := fs0, ok := fun _ => none } [] :=
+  ⟨hs, fun l hl => by simp at hl, hag, fun l hl => by simp at hl, fun l hl => by simp at hl⟩
+
+end Grog.Build
